@@ -4,13 +4,15 @@ from fractions import Fraction
 from .. import sched_gen, sched_impl, sched_suite
 
 PROPERTY = "C01"
-LEAN_MODULE = "IsobarV.Props.C01Float"
-CHECKER_MODULES = ["IsobarV.Props.C01", "IsobarV.Sched.Onset", "IsobarV.Sched.FloatTime", "IsobarV.Sched.FloatSum", "IsobarV.Props.C01Float"]
+LEAN_MODULE = "IsobarV.Props.C01All"
+CHECKER_MODULES = ["IsobarV.Props.C01", "IsobarV.Sched.Onset", "IsobarV.Sched.FloatTime", "IsobarV.Sched.FloatSum", "IsobarV.Props.C01Float", "IsobarV.Props.C01Runs"]
 THEOREMS = ["IsobarV.C01." + t for t in (
     "onset_closed_form", "firstTick_iff_cdiv", "onset_from_start", "no_drift", "rounding_independent",
     "nudge_shift", "local_time_advances", "performSolo_clock", "solo_clock",
     # the float clock of the implementation (abstract rounding function): lean/IsobarV/Props/C01Float.lean
-    "tick_time_never_drifts", "tick_time_within_guard", "event_time_never_drifts", "event_time_within_guard")] + [
+    "tick_time_never_drifts", "tick_time_within_guard", "event_time_never_drifts", "event_time_within_guard",
+    # the closed form for a track inside a multi-track run (lean/IsobarV/Props/C01Runs.lean)
+    "fired_iff_of_inv", "soloTick_onsetInv", "alone_onsetInv", "onset_in_a_multitrack_run")] + [
     "IsobarV.FloatTime.step_exact", "IsobarV.FloatTime.clock_exact",
     "IsobarV.FloatSum.kstep_spec", "IsobarV.FloatSum.krun_spec", "IsobarV.FloatSum.kahan_error", "IsobarV.FloatSum.kahan_exact_arithmetic"]
 RULE = ("(a) random histories (1-3 tracks, on/off-grid durations >= 1 tick, quantize/delay starts, nudges, updates) run on the real "
